@@ -3623,6 +3623,15 @@ def c17(ctx):
             continue
         jobs.append((f"m{i}", m["patches"], src))
     ctx.count("multi_change_jobs", sum(1 for j in jobs if j[0].startswith("m")))
+    # long runs of rewritten declarations in front of untouched ones with comments: around the look-ahead (64) of the list
+    # alignment, with and without an import added in front
+    for nrun in (7, 63, 64, 65, 130):
+        body = "".join(f"func r{i}() {{ foo({i}) }}\n\n" for i in range(nrun))
+        tail = ("// keep doc\nfunc keep() {\n\t// inside keep\n\tzzz(1) // eol keep\n}\n\nfunc r_last() { foo(0) }\n\n"
+                "// const doc\nconst (\n\t// first\n\tA = 1 // one\n\tB = 2\n)\n")
+        src = "package a\n\nimport \"fmt\"\n\nvar _ = fmt.Sprint\n\n" + body + tail
+        jobs.append((f"run{nrun}", ["@@\nvar x expression\n@@\n-foo(x)\n+bar(x)\n"], src))
+        jobs.append((f"run{nrun}i", ["@@\nvar x expression\n@@\n+import \"example.com/added\"\n\n-foo(x)\n+added.Bar(x)\n"], src))
     for k in ctx.known:
         if k["id"] == "F18":
             jobs.append(("f18", [k["witness"]["patch"]], k["witness"]["file"]))
